@@ -57,7 +57,7 @@ class TOpt(T):
 
 class TSeq(T):
     """immutable-payload sequence (list / tuple / 1-D tensor) of symbolic length"""
-    def __init__(self, elem, mutable=True): self.elem = elem; self.mutable = mutable
+    def __init__(self, elem, mutable=True, kind=None): self.elem = elem; self.mutable = mutable; self.kind = kind
     def __repr__(self): return f"Seq[{self.elem!r}]"
 
 
@@ -289,6 +289,8 @@ def fresh(T_, name, idx=(), unique=True):
                   T_.elem)
         if isinstance(T_.elem, TSeq):
             sq.flat = _sym(z3.IntSort(), name + "$flat", idx)
+        if getattr(T_, "kind", None) is not None:
+            sq.kind = z3.IntVal(T_.kind)          # 1: torch tensor, 2: numpy array (elementwise arithmetic)
         return sq
     if isinstance(T_, TTuple):
         return VTuple([fresh(t, f"{name}${k}", idx, unique=False) for k, t in enumerate(T_.elems)])
@@ -371,10 +373,14 @@ def ite(c, a, b):
         return VTuple([ite(c, x, y) for x, y in zip(a.elems, b.elems)])
     if isinstance(a, VSeq) and isinstance(b, VSeq):
         if b.concrete is not None and not b.concrete:
-            return VSeq(z3.If(c, a.len, 0), a.elem, a.etype)
-        if a.concrete is not None and not a.concrete:
-            return VSeq(z3.If(c, 0, b.len), b.elem, b.etype)
-        return VSeq(z3.If(c, a.len, b.len), lambda i: ite(c, a.elem(i), b.elem(i)), a.etype)
+            r = VSeq(z3.If(c, a.len, 0), a.elem, a.etype)
+        elif a.concrete is not None and not a.concrete:
+            r = VSeq(z3.If(c, 0, b.len), b.elem, b.etype)
+        else:
+            r = VSeq(z3.If(c, a.len, b.len), lambda i: ite(c, a.elem(i), b.elem(i)), a.etype)
+        if a.kind is not None and b.kind is not None:       # list / tensor / array tag survives a merge
+            r.kind = a.kind if a.kind.eq(b.kind) else z3.If(c, a.kind, b.kind)
+        return r
     if isinstance(a, VRec) and isinstance(b, VRec) and a.fields.keys() == b.fields.keys():
         return VRec(a.name, {f: ite(c, a.fields[f], b.fields[f]) for f in a.fields})
     if isinstance(a, VRef) and isinstance(b, VRef) and a.oid == b.oid:
